@@ -21,7 +21,7 @@ Lemma c19_entry_points : forall f,
   forall (R0 : nat -> Z) (callrel : positive -> cstate -> cstate -> Prop),
   (forall g c c', callrel g c c' -> call_ok (claims g) c c') ->
   forall c tm c', entry_state R0 c ->
-  run cstate (gbstep R0 callrel) (cfg_of f) 1%positive c tm c' ->
+  run cstate (gbstep R0 callrel) gcond (cfg_of f) 1%positive c tm c' ->
   (tm = TRet \/ tm = TTailInd \/ exists g, tm = TTail g) ->
   cv (cr c' RSP) = R0 RSP /\
   cv (cr c' 3) = R0 3%nat /\ cv (cr c' 5) = R0 5%nat /\ cv (cr c' 12) = R0 12%nat /\
@@ -40,7 +40,7 @@ Lemma c19_internal : forall f,
   forall (R0 : nat -> Z) (callrel : positive -> cstate -> cstate -> Prop),
   (forall g c c', callrel g c c' -> call_ok (claims g) c c') ->
   forall c c', entry_state R0 c ->
-  run cstate (gbstep R0 callrel) (cfg_of f) 1%positive c TRet c' ->
+  run cstate (gbstep R0 callrel) gcond (cfg_of f) 1%positive c TRet c' ->
   restored_conc R0 (cl_pres (claims (fid f))) c'.
 Proof.
   intros f Hin Hn R0 callrel Hcall c c' Hes Hrun.
@@ -56,7 +56,7 @@ Lemma c14_aes_entry_points : forall f,
   forall (vcallrel : positive -> vconc -> vconc -> Prop),
   (forall g c c', vcallrel g c c' -> vcall_ok (cl_vd (claims g)) c c') ->
   forall c tm c', (forall r, c r = 0%nat) ->
-  run vconc (vbstep vcallrel) (cfg_of f) 1%positive c tm c' ->
+  run vconc (vbstep vcallrel) vcond (cfg_of f) 1%positive c tm c' ->
   (tm = TRet \/ tm = TTailInd) ->
   forall r, (r < 32)%nat ->
   (c' r <= match lookup_res residue_list (fid f) with Some res => nth r res 0 | None => 0 end)%nat.
@@ -91,6 +91,29 @@ Definition ex_good2 : func := Fn 1 [
 Definition ex_bad_store : func := Fn 1 [Bk 1 [GStore 4 8 8 (Some 0)] [] TRet].
 Definition ex_bad_df : func := Fn 1 [Bk 1 [GStd] [] TRet].
 Definition ex_bad_rsp : func := Fn 1 [Bk 1 [GPush 3] [] TRet].
+
+(* frame-relative indexed stores in a counted loop (the mh_sha1_block_* shape): r10 = 0,16,32,48 by
+   `cmp r10,64 ; jb`, stores [rsp+r10+256] of 16 bytes into a 320-byte aligned frame below one push: accepted;
+   the same loop bounded by 80 would reach the saved register: rejected; the double-buffer pointer pair
+   swapped by xchg (md5_mb_x* shape) is accepted *)
+Definition ex_idx_good : func := Fn 1 [
+  Bk 1 [GPush 12; GMov 11 4; GLea 4 4 (-320); GAlign 4 7 4; GConst 10 0] [] (TJmp 2);
+  Bk 2 [GStoreIdx 4 10 1 256 16; GLea 10 10 16] [] (TJcmp false true RLt 10 64 2 3);
+  Bk 3 [GMov 4 11; GPop 12] [] TRet].
+Definition ex_idx_bad : func := Fn 1 [
+  Bk 1 [GPush 12; GMov 11 4; GLea 4 4 (-320); GAlign 4 7 4; GConst 10 0] [] (TJmp 2);
+  Bk 2 [GStoreIdx 4 10 1 256 16; GLea 10 10 16] [] (TJcmp false true RLt 10 80 2 3);
+  Bk 3 [GMov 4 11; GPop 12] [] TRet].
+Definition ex_xchg_good : func := Fn 1 [
+  Bk 1 [GLea 4 4 (-1160); GStore 4 1152 8 (Some 5); GMov 2 4; GLea 5 4 512] [] (TJmp 2);
+  Bk 2 [GStore 2 496 16 None; GStore 5 496 16 None; GStore 4 1024 16 None] [] (TJcc 3 4);
+  Bk 3 [GXchg 5 2] [] (TJmp 2);
+  Bk 4 [GLoad 5 4 1152; GLea 4 4 1160] [] TRet].
+
+Lemma ex_c19_ranges :
+  check_c19 ex_claims ex_idx_good = true /\ check_c19 ex_claims ex_idx_bad = false /\
+  check_c19 ex_claims ex_xchg_good = true.
+Proof. vm_compute. repeat split; reflexivity. Qed.
 
 Lemma ex_c19 :
   check_c19 ex_claims ex_good = true /\ check_c19 ex_claims ex_good2 = true /\
